@@ -56,8 +56,37 @@ Fixpoint vtyp (SC : list ty) (t : ty) (v : val) {struct t} : Prop :=
          | _, _ => False
          end) fts fvs
   | TFn ps r, VClo id => nth_error SC id = Some (TFn ps r)
+  | TSum _ cs, VCon tag p =>
+      (fix pick (cs : list (option ty)) (n : nat) : Prop :=
+         match cs, n with
+         | [], _ => False
+         | o :: _, O => match o with Some t' => vtyp SC t' p | None => p = VUnit end
+         | _ :: cs', S n' => pick cs' n'
+         end) cs tag
   | _, _ => False
   end.
+
+(* the payload of constructor number tag of a sum value *)
+Definition ptyp (SC : list ty) (o : option ty) (p : val) : Prop :=
+  match o with Some t' => vtyp SC t' p | None => p = VUnit end.
+
+Lemma vtyp_sum : forall SC nm cs tag p, vtyp SC (TSum nm cs) (VCon tag p) <-> exists o, nth_error cs tag = Some o /\ ptyp SC o p.
+Proof.
+  intros SC nm cs. cbn [vtyp]. induction cs as [|o cs IH]; intros tag p.
+  - split; [contradiction|]. intros (o & E & _). destruct tag; discriminate.
+  - destruct tag as [|tag].
+    + split.
+      * intro H. exists o. split; auto.
+      * intros (o' & E & H). cbn in E. inversion E; subst. exact H.
+    + cbn [nth_error]. apply IH.
+Qed.
+
+Lemma vtyp_sum_inv : forall SC nm cs v, vtyp SC (TSum nm cs) v ->
+  exists tag p o, v = VCon tag p /\ nth_error cs tag = Some o /\ ptyp SC o p.
+Proof.
+  intros SC nm cs [z|vs|fs|id| |tag p] H; try (cbn in H; contradiction).
+  apply vtyp_sum in H. destruct H as (o & E & Hp). eauto 6.
+Qed.
 
 Definition fvtyp (SC : list ty) (ft : ident * ty) (fv : ident * val) : Prop :=
   fst ft = fst fv /\ vtyp SC (snd ft) (snd fv).
@@ -99,6 +128,8 @@ Proof.
   - apply vtyp_rec. apply vtyp_rec in Hv. revert H. induction Hv as [|ft fv fts fvs [Ha Hb] Hc IH]; intros HF; constructor;
       inversion HF; subst; auto. split; auto.
   - cbn in *. eapply ext_nth; eauto.
+  - apply vtyp_sum. apply vtyp_sum in Hv. destruct Hv as (o & E & Hp). exists o. split; auto.
+    rewrite Forall_forall in H. specialize (H o (nth_error_In _ _ E)). destruct o as [t'|]; cbn in *; auto.
 Qed.
 
 Lemma vtyps_mono : forall SC SC' ts vs, ext SC SC' -> Forall2 (vtyp SC) ts vs -> Forall2 (vtyp SC') ts vs.
